@@ -129,6 +129,20 @@ func init() {
 		fs.mutate("rename " + from + " -> " + to)
 		return nilError()
 	})
+	statf := func(fr *frame, args []value) value {
+		name := mustConcStr(args[0])
+		f, ok := E.fs().files[name]
+		if !ok {
+			return tuple{iface{}, errNotExist("stat", name)}
+		}
+		h := &hostObj{name: "os.FileInfo", methods: map[string]*hostFunc{}}
+		h.methods["Size"] = &hostFunc{name: "Size", f: func(fr *frame, a []value) value { return mkI(len(f.data)) }}
+		h.methods["Name"] = &hostFunc{name: "Name", f: func(fr *frame, a []value) value { return mkStr(name) }}
+		h.methods["IsDir"] = &hostFunc{name: "IsDir", f: func(fr *frame, a []value) value { return False }}
+		return tuple{iface{t: types.NewPointer(pkgType("os", "fileStat")), v: h}, nilError()}
+	}
+	reg("os.Stat", statf)
+	reg("os.Lstat", statf)
 	reg("os.IsNotExist", func(fr *frame, args []value) value {
 		it := args[0].(iface)
 		if it.t == nil {
